@@ -50,6 +50,12 @@ CHECKS.update({
  "C09": dict(engine="symtorch", category="model_checking", design_ref="DESIGN.md §4 C09",
    text="One inductive step per operation of the property's alphabet (deepcopy/pickle/torch.save of parameter or module, .to, .half, load_state_dict, requires_grad_, library transform) from an arbitrary valid state: the real hook functions and the real copy/pickle protocol run on a parameter whose tag is a solver-selected symbol (path forking in has_parameter_data / lr_scale_func) and whose depth is symbolic; obligations: invariant (nn.Parameter with hooks bound to itself) re-established, tag/depth/values/dtype/trainability as expected, same lr scale (z3), accepted by the optimizers. All real histories up to length 3 (quick) / 4 (thorough) enumerated as a cross-check of the invariant's strength.",
    note="Trusted: CPython copy/pickle and torch serialisation protocols (executed for real, validated with sentinel hooks each run). The solver's share is small (tag selector feasibility, lr-scale equalities); the argument is inductive: if the invariant is re-established by every operation, histories of any length preserve the tags. History enumeration is labelled enumeration.", technique="inductive step of the real hook code under symbolic tag/depth with path forking (z3) + bounded enumeration of real histories"),
+ "C15": dict(engine="fxsym", category="translation_validation", design_ref="DESIGN.md §4 C15",
+   text="(a) the real quantise_fwd/quantise_bwd autograd.Functions run on symbolic tensors with FPFormat.quantise an opaque op labelled with the complete format (E, M, rounding, srbits): value/gradient are Q(x)/g resp. x/Q(g); the lossless E8M23 clause is a z3 bit-vector proof over every float32. (b,c) per program of an enumerated family (linear with/without/keyword bias, unit-scaled linear, attention plain/causal/dropout_p=0/mask by keyword or position, unit-scaled attention, fillers, residual blocks, heads) and format pair: the REAL simulate_format/simulate_fp8 (also composed after unit_scale) runs through TorchDynamo on real inputs; the graph the quantisation backend received and the graph it produced are taken from that run and unified - output and all gradients, all data, all dims - against a hand-written reference bwdQ(op(fwdQ(tensor operands), bias/mask/kwargs untouched)) using the caller's formats.",
+   note="Trusted: TorchDynamo's capture of the original program; engine S (opaque terms, mini-autograd incl. the autograd_function_apply higher-order op); stochastic rounding compared under 'same generator state' (Q is a labelled opaque op). Program axis enumerated (depth <= 3 quick). Graphs in which Dynamo inlines unit-scaled functions carry shape-specialised constants: dims stay concrete there.", technique="translation validation: real Dynamo-captured graphs before/after the library backend, interpreted symbolically and unified (z3 for coefficient equalities); z3 bit-vectors for the lossless clause; bit-exact replay with pinned RNG"),
+ "C16": dict(engine="fxsym", category="translation_validation", design_ref="DESIGN.md §4 C16",
+   text="Per program of a grammar enumerated exhaustively up to the tier bound (1251 programs quick: mapped ops incl. torch.nn wrappers and conv1d, unmapped ops, every kind of add, residual blocks in both operand orders with 9 branch shapes incl. softmax/attention, skip = input / residual output / plain sum, heads, embedding, user replacements): the REAL unit_scale() runs through TorchDynamo on real inputs (must not raise); the captured original graph under an independent recipe interpreter and the graph the library produced are both executed on symbolic tensors (real U.* code) and unified on output and every input/parameter gradient for all data and dims.",
+   note="Trusted: TorchDynamo's capture; the recipe interpreter vf/fxsym/interp.py (written from the User Guide statement, independent of the backend); engine S. Program axis enumerated, not solved. Weight re-initialisation checked concretely.", technique="translation validation of real Dynamo-captured graphs against an independent reference interpreter; symbolic unification with z3; concrete replay"),
 })
 
 NA = {
